@@ -232,6 +232,11 @@ pub struct PairCase {
     pub peer_zero: bool,
     /// supply the omitted psk with set_psk after the MissingPsk error
     pub late_set: bool,
+    /// before the first message the omitting side makes set_psk calls that must be refused (0 = none; 1 = a 31-byte
+    /// key, 2 = a 33-byte key, 3 = an empty key for the omitted slot; 4 = a good key for a location past the last
+    /// slot): a refused call supplies nothing, so the PSK is still "not supplied" afterwards
+    #[serde(default)]
+    pub refused_set: u8,
 }
 
 
@@ -247,6 +252,7 @@ fn early_failure(c: &PairCase, k: usize, need_at: &dyn Fn(u8) -> usize, what: &s
     control.omit = None;
     control.peer_zero = false;
     control.late_set = false;
+    control.refused_set = 0;
     if run_pair(&control).is_err() {
         return Ok(()); // the complete handshake has its own problem: not this clause's business
     }
@@ -290,6 +296,20 @@ fn run_pair(c: &PairCase) -> Result<(), (String, String)> {
         Ok((a, b)) => return Err(("an honest pair failed to build".into(), format!("{detail}: {:?} / {:?}", a.err(), b.err()))),
         Err(_) => return Err(("build panicked".into(), detail)),
     };
+    // refused set_psk calls on the omitting side: whatever they return, they must not supply a PSK
+    if let (Some((s, p)), rf @ 1..=4) = (c.omit, c.refused_set) {
+        let h = if s == 0 { &mut hi } else { &mut hr };
+        let key = store[usize::from(p)];
+        let r = catch_unwind(AssertUnwindSafe(|| match rf {
+            1 => h.set_psk(usize::from(p), &key[..31]),
+            2 => h.set_psk(usize::from(p), &[&key[..], &[0u8][..]].concat()),
+            3 => h.set_psk(usize::from(p), &[]),
+            _ => h.set_psk(10, &key),
+        })).map_err(|_| ("set_psk panicked".to_string(), detail.clone()))?;
+        if r.is_ok() {
+            return Ok(()); // accepted: then a PSK was supplied after all, and this clause has nothing to judge
+        }
+    }
     // message index (0-based) at which `side` first needs psk p
     let need_at = |p: u8| -> usize { pat.with_psks(&c.psks).unwrap().msgs.iter().position(|m| m.contains(&Tok::Psk(p))).unwrap() };
     let mut buf = vec![0u8; 4096];
@@ -430,7 +450,7 @@ fn ring_only_builds(ctx: &Ctx) {
 
 pub fn run(tier: Tier) -> i32 {
     let ctx = Ctx::new("C12", tier, "model_checking");
-    ctx.set_rule("finite product enumerated completely: 38 patterns x 2 roles x 4 subsets of {local static, remote static} x psk modifier (none, psk0..psk9, every valid pair, fallback forms) x subsets of the listed psks supplied at build x 7 resolvers (complete, lacking rng/dh/cipher/hash, two FallbackResolver compositions) x DH {25519, P256, 448}; oracle derived from the spec pattern text; the built-in resolvers themselves: DefaultResolver / RingResolver provide exactly their documented primitives and hand out the named ones, and with ring as the only source of ciphers and hashes a name builds iff ring documents both (and then talks to a default-resolver peer); then the honest handshake of every successfully built pair (no MissingKeyMaterial), psk omitted on either side (MissingPsk exactly at the message that needs it, all-zero substitute must not complete, set_psk then completes)");
+    ctx.set_rule("finite product enumerated completely: 38 patterns x 2 roles x 4 subsets of {local static, remote static} x psk modifier (none, psk0..psk9, every valid pair, fallback forms) x subsets of the listed psks supplied at build x 7 resolvers (complete, lacking rng/dh/cipher/hash, two FallbackResolver compositions) x DH {25519, P256, 448}; oracle derived from the spec pattern text; the built-in resolvers themselves: DefaultResolver / RingResolver provide exactly their documented primitives and hand out the named ones, and with ring as the only source of ciphers and hashes a name builds iff ring documents both (and then talks to a default-resolver peer); then the honest handshake of every successfully built pair (no MissingKeyMaterial), psk omitted on either side (MissingPsk exactly at the message that needs it, all-zero substitute must not complete, set_psk then completes; the same after a refused set_psk for that slot - 31-, 33-, 0-byte key, location past the last slot - which supplies nothing)");
     ring_only_builds(&ctx);
     super::c20::builtin_table(&ctx);
     let pats = patterns::base_patterns();
@@ -484,13 +504,17 @@ pub fn run(tier: Tier) -> i32 {
         for ps in patterns::psk_subsets(p.msgs.len()) {
             for dh in dhs {
                 for extra in [false, true] {
-                    pairs.push(PairCase { pattern: p.name.clone(), psks: ps.clone(), dh: (*dh).into(), extra_keys: extra, omit: None, peer_zero: false, late_set: false });
+                    pairs.push(PairCase { pattern: p.name.clone(), psks: ps.clone(), dh: (*dh).into(), extra_keys: extra, omit: None, peer_zero: false, late_set: false, refused_set: 0 });
                 }
                 for q in &ps {
                     for side in 0..2 {
-                        pairs.push(PairCase { pattern: p.name.clone(), psks: ps.clone(), dh: (*dh).into(), extra_keys: false, omit: Some((side, *q)), peer_zero: false, late_set: false });
-                        pairs.push(PairCase { pattern: p.name.clone(), psks: ps.clone(), dh: (*dh).into(), extra_keys: false, omit: Some((side, *q)), peer_zero: false, late_set: true });
-                        pairs.push(PairCase { pattern: p.name.clone(), psks: ps.clone(), dh: (*dh).into(), extra_keys: false, omit: Some((side, *q)), peer_zero: true, late_set: true });
+                        pairs.push(PairCase { pattern: p.name.clone(), psks: ps.clone(), dh: (*dh).into(), extra_keys: false, omit: Some((side, *q)), peer_zero: false, late_set: false, refused_set: 0 });
+                        for rf in 1..=4u8 {
+                            pairs.push(PairCase { pattern: p.name.clone(), psks: ps.clone(), dh: (*dh).into(), extra_keys: false, omit: Some((side, *q)), peer_zero: false, late_set: rf % 2 == 0, refused_set: rf });
+                            pairs.push(PairCase { pattern: p.name.clone(), psks: ps.clone(), dh: (*dh).into(), extra_keys: false, omit: Some((side, *q)), peer_zero: true, late_set: true, refused_set: rf });
+                        }
+                        pairs.push(PairCase { pattern: p.name.clone(), psks: ps.clone(), dh: (*dh).into(), extra_keys: false, omit: Some((side, *q)), peer_zero: false, late_set: true, refused_set: 0 });
+                        pairs.push(PairCase { pattern: p.name.clone(), psks: ps.clone(), dh: (*dh).into(), extra_keys: false, omit: Some((side, *q)), peer_zero: true, late_set: true, refused_set: 0 });
                     }
                 }
             }
